@@ -2,11 +2,14 @@ use crate::core::{CaseOut, Run, Verdict};
 
 pub mod c06;
 pub mod c08;
+pub mod fmt;
 
 pub fn run(run: &Run) -> bool {
 	match run.prop.as_str() {
 		"C06" => c06::run(run),
 		"C08" => c08::run(run),
+		"C19" => fmt::run_c19(run),
+		"C20" => fmt::run_c20(run),
 		_ => return false,
 	}
 	true
@@ -16,6 +19,7 @@ fn replay_case(run: &Run, prop: &str, stage: &str, tape: Option<&[u16]>, v: &ser
 	match prop {
 		"C06" => c06::replay(run, stage, tape, v),
 		"C08" => c08::replay(run, stage, tape, v),
+		"C19" | "C20" => fmt::replay(run, prop, stage, tape, v),
 		_ => None,
 	}
 }
